@@ -72,6 +72,7 @@ def gen_ops(rng, files, n=None):
 
 OPS_RUNNER = r'''
 import json, os, sys
+if len(sys.argv) > 6: os.chdir(sys.argv[6])
 ops = json.loads(sys.argv[1])
 for op in ops:
     if op[0] in ("create", "modify"):
@@ -95,8 +96,11 @@ os._exit(int(sys.argv[4]))
 '''
 
 
-def command_for(ops, out="", err="", rc=0, repeat=1):
-    return [sys.executable, "-c", OPS_RUNNER, json.dumps(ops), out, err, str(rc)] + ([str(repeat)] if repeat != 1 else [])
+def command_for(ops, out="", err="", rc=0, repeat=1, chdir=None):
+    """[chdir]: the script first changes to that directory (a functionary who stays in a workspace directory and names
+    the project by base path has the build tool work inside the project)"""
+    return [sys.executable, "-c", OPS_RUNNER, json.dumps(ops), out, err, str(rc)] + (
+        [str(repeat), chdir] if chdir else [str(repeat)] if repeat != 1 else [])
 
 
 def apply_ops(root, ops):
@@ -168,6 +172,9 @@ def gen_chain(rng, opts=None):
             spec["app.py"] = ("f", b"source\n")
             common["paths"] = ["dist", "app.py"]
             common["lstrip_paths"] = ["dist/"]
+    if not simple and not force and rng.random() < 0.3:
+        # the functionary stays in a workspace directory (the parent of the project) and names the project by base path
+        common["workspace"] = True
     files = regular_files(spec)
     for i in range(nsteps):
         ops = gen_ops(rng, files)
@@ -274,16 +281,22 @@ def run_step(project, linkdir, st, tamper=None):
     import in_toto.runlib as rl
     from in_toto.models.metadata import Metadata
     key = hk.sslib_key(st.get("family", "ed25519"), st["key"])
-    cmd = [] if st["no_command"] else command_for(st["ops"], st["out"], st["err"], st["rc"], st.get("out_repeat", 1))
+    ws = bool(st.get("workspace"))
+    project = os.path.realpath(project)
+    cmd = [] if st["no_command"] else command_for(st["ops"], st["out"], st["err"], st["rc"], st.get("out_repeat", 1),
+                                                  chdir=project if ws else None)
     mdir = linkdir if st["metadata_directory"] else None
-    rkw = dict(exclude_patterns=st["exclude_patterns"], base_path=st["base_path"],
+    rkw = dict(exclude_patterns=st["exclude_patterns"], base_path=project if ws else st["base_path"],
                normalize_line_endings=st["normalize_line_endings"], lstrip_paths=st["lstrip_paths"])
-    rec = {"name": st["name"], "keyid": key.keyid}
+    rec = {"name": st["name"], "keyid": key.keyid, "cmd": cmd}
     paths = st.get("paths") or ["."]
+    # where the functionary stands while the tools run (and where links are written by default)
+    stand = os.path.dirname(project) if ws else project
     with fstree.in_dir(project), quiet():
-        before_listing = set(os.listdir("."))
         rec["mat_before"] = _snap(st)
         rec["prod_before"] = rec["mat_before"]
+        os.chdir(stand)
+        before_listing = set(os.listdir("."))
         rec["two_phase"] = bool(st["two_phase"] and not st["no_command"])
         try:
             if rec["two_phase"]:
@@ -310,11 +323,13 @@ def run_step(project, linkdir, st, tamper=None):
         except Exception as e:  # noqa
             rec["exc"] = type(e).__name__
             md = None
+        os.chdir(project)
         rec["mat_after"] = _snap(st)
         rec["prod_after"] = rec["mat_after"]
+        os.chdir(stand)
         rec["cwd"] = os.getcwd().replace("\\", "/")
         fname = "%s.%s.link" % (st["name"], key.keyid[:8])
-        where = os.path.join(linkdir, fname) if st["metadata_directory"] else os.path.join(project, fname)
+        where = os.path.join(linkdir, fname) if st["metadata_directory"] else os.path.join(stand, fname)
         rec["file_exists"] = os.path.exists(where)
         rec["new_entries"] = sorted(set(os.listdir(".")) - before_listing)
         rec["leftover_unfinished"] = sorted(f for f in os.listdir(".") if f.endswith(".link-unfinished"))
